@@ -133,7 +133,8 @@ func parseProperType(data []byte, v reflect.Value) bool {
 	s := goutil.BytesToString(data)
 	switch v.Kind() {
 	case reflect.String:
-		v.SetString(s)
+		// copy: data is only valid during the call (the caller reuses its buffer)
+		v.SetString(string(data))
 	case reflect.Bool:
 		bol, err := strconv.ParseBool(s)
 		if err != nil {
@@ -162,7 +163,8 @@ func parseProperType(data []byte, v reflect.Value) bool {
 		if v.Type().Elem().Kind() != reflect.Uint8 {
 			return false
 		}
-		v.SetBytes(data)
+		// copy: data is only valid during the call (the caller reuses its buffer)
+		v.SetBytes(append([]byte(nil), data...))
 	case reflect.Invalid:
 		return true
 	default:
